@@ -119,7 +119,7 @@ func extraJobs(prop, tier string) []JobSpec {
 	case "C05":
 		// hist:faults: a failure (in particular an unrecovered panic) must not leave anything behind that makes
 		// a later Invoke of an acyclic graph report a cycle
-		jobs := []JobSpec{{"graphexh", 5}, {"graphexh5", 128}, {"graphsamp", n(100, 2000)}, {"hist:cyclic", n(40000, 2000000)}, {"hist:faults", n(10000, 500000)}, {"pool:pcyclic", n(15000, 700000)}}
+		jobs := []JobSpec{{"graphexh", 5}, {"graphexh5", 128}, {"graphsamp", n(100, 2000)}, {"hist:cyclic", n(40000, 2000000)}, {"hist:faults", n(10000, 500000)}, {"pool:pcyclic", n(15000, 700000)}, {"hist:reentrant", n(15000, 700000)}}
 		if q {
 			jobs = append(jobs, JobSpec{"smallsamp", 60000})
 		} else {
